@@ -95,3 +95,28 @@ def label_vector(rng, ncycles=None, gaps=True):
         if gaps and rng.random() < .4:
             parts.append(np.full(int(rng.integers(1, 6)), -1))
     return np.concatenate(parts).astype(int)
+
+
+# ---------------------------------------------------------------------------------
+# memory layouts
+
+LAYOUTS = ['C', 'F', 'T', 'strided']
+
+
+def relayout(rng, a, kind=None):
+    """Same values and shape, different memory layout: C-contiguous, Fortran-ordered, a transposed view of a
+    per-column stack (first two axes swapped in memory), or a strided view into a larger buffer."""
+    kind = kind or LAYOUTS[int(rng.integers(len(LAYOUTS)))]
+    if a.ndim < 2:
+        kind = 'strided' if kind != 'C' else 'C'
+    if kind == 'F':
+        return np.asfortranarray(a), kind
+    if kind == 'T':
+        axes = [1, 0] + list(range(2, a.ndim))
+        return np.ascontiguousarray(a.transpose(axes)).transpose(axes), kind
+    if kind == 'strided':
+        big = np.zeros(tuple(2 * n for n in a.shape), dtype=a.dtype)
+        view = big[tuple(slice(0, 2 * n, 2) for n in a.shape)]
+        view[...] = a
+        return view, kind
+    return np.ascontiguousarray(a), 'C'
